@@ -827,8 +827,3 @@ pub mod hostile_eq_fn {
     pub struct Eq;
     pub struct Fn;
 }
-impl Default for R {
-    fn default() -> Self {
-        R(0)
-    }
-}
